@@ -167,6 +167,8 @@ fn block_strategy() -> BoxedStrategy<Block> {
         3 => (-2i16..=40).prop_map(Block::HalfRowsPlus),
         1 => Just(Block::Fixed(256)),
         2 => Just(Block::Default),
+        // "one block, whatever the length": the largest values the type holds, and those around the 32-bit limit
+        1 => proptest::sample::select(vec![usize::MAX, usize::MAX - 1, usize::MAX / 2 + 1, 1usize << 40, u32::MAX as usize, u32::MAX as usize + 1, i32::MAX as usize]).prop_map(Block::Fixed),
     ]
     .boxed()
 }
@@ -203,7 +205,7 @@ fn case_strategy(tier: Tier, near_tie: bool) -> BoxedStrategy<Case> {
     (
         seq_strategy(5, scan_len(tier)),
         mat_strategy(Abc::Dna, prop_oneof![1 => Just(1usize), 4 => 2usize..=12, 3 => 13usize..=40].boxed(), reg),
-        prop_oneof![3 => Just(Embed::None), 2 => any::<usize>().prop_map(Embed::Consensus), 1 => any::<usize>().prop_map(Embed::Anti)],
+        prop_oneof![3 => Just(Embed::None), 2 => any::<usize>().prop_map(Embed::Consensus), 1 => any::<usize>().prop_map(Embed::Anti), 2 => any::<usize>().prop_map(Embed::Best)],
         prop_oneof![3 => Just(0usize), 1 => 1usize..=3, 1 => 20usize..=45],
         block_strategy(),
         thr_strategy(),
@@ -302,15 +304,19 @@ fn classify(case: &Case, s: &Setup, expected: usize, info: &mut CaseInfo) {
     info.class_if(expected == 0, "no-hit");
     info.class_if(n > 0 && expected == n, "all-hit");
     info.class_if(case.mat.rows.iter().any(|r| r[4].0.is_finite()), "finite-wildcard-column");
+    info.class_if(n > 0 && s.r32.iter().cloned().fold(f32::NEG_INFINITY, f32::max) > s.pssm.max_score(), "a-window-with-wildcards-scores-above-max_score()");
     info.class_if(s.idx.len() >= 8000, "L>=8000");
     info.class_if(s.rows > 65536, "more-than-65536-rows");
+    info.class_if(matches!(case.block, Block::Fixed(b) if b >= i32::MAX as usize), "block-size>=2^31");
     info.class_if(case.via_new == 1, "built-by-StripedSequence::new(arbitrary-padding)");
     info.class_if(case.via_new > 1, "built-by-StripedSequence::new(spare-rows)");
     let wrap = s.striped.wrap();
     if let Some(b) = case.block.resolve(s.rows) {
-        let k = (s.rows + b - 1) / b.max(1);
+        // (block sizes go up to usize::MAX: saturating arithmetic in the labels)
+        let k = s.rows.saturating_add(b - 1) / b.max(1);
+        let kb = k.saturating_mul(b);
         info.class_if(b < s.rows, ">=2-blocks");
-        info.class_if(k * b >= s.rows && k * b < s.rows + wrap && k * b != s.rows || (s.rows > 0 && b >= s.rows && b < s.rows + wrap), "block-boundary-in-wrap-rows");
+        info.class_if(kb >= s.rows && kb < s.rows + wrap && kb != s.rows || (s.rows > 0 && b >= s.rows && b < s.rows + wrap), "block-boundary-in-wrap-rows");
     } else {
         info.class("default-block-size");
         info.class_if(256 < s.rows, ">=2-blocks");
